@@ -168,8 +168,8 @@ namespace stdex
         constexpr const T& operator[](size_type idx) const { return the_data[idx]; }
         constexpr T& operator[](size_type idx) { return the_data[idx]; }
 #endif
-        constexpr void push_back(const T& v) { the_data[current_size++] = v; }
-        constexpr void emplace_back(T&& v) { the_data[current_size++] = std::move(v); }
+        constexpr void push_back(const T& v) { check_capacity(); the_data[current_size++] = v; }
+        constexpr void emplace_back(T&& v) { check_capacity(); the_data[current_size++] = std::move(v); }
         constexpr const T& front() const { return the_data[0]; }
         constexpr T& front() { return the_data[0]; }
 #ifdef CTPG_VERIF
@@ -211,6 +211,12 @@ namespace stdex
         }
 
     private:
+        constexpr void check_capacity() const
+        {
+            if (current_size >= N)
+                throw std::runtime_error("Fixed capacity exceeded");
+        }
+
         T the_data[N];
         size_type current_size;
     };
